@@ -1,10 +1,12 @@
 """Crash wrapper of check C10: runs a real generated job script and makes the process die at the
 n-th executed line of experimaestro/run.py or of the task body.
 
-    python -m vpk_c10.crashrun <script.py> <eventlog> <KILL|TERM|INT|NONE> <n> [<n2>]
+    python -m vpk_c10.crashrun <script.py> <eventlog> <KILL|TERM|INT|NONE> <n> [<j>]
 
-(n2 > n: a second death, SIGKILL at the n2-th executed line, i.e. while the handler of the first signal,
-the except clauses it triggers or the exit callback run.)
+(j >= 0: a second death - SIGKILL when j observable effects have followed the first signal and the next one is
+about to happen, i.e. while the handler of the first signal, the except clause it triggers or the exit callback
+runs.  Lines executed after a handled signal are not traced - the handler's SystemExit passes through the trace
+function, which switches tracing off - so the points of the second death are the effect boundaries.)
 
 Nothing in /repo is changed: the wrapper installs (in this process only) a trace function that counts
 executed lines, an audit hook and thin wrappers around atexit.register/unregister and signal.signal
@@ -15,6 +17,7 @@ Event log lines:
   L <n> <file>:<lineno>          traced line about to execute (file = run | task)
   E <name>                       an observable effect just happened / is being issued
   K <sig> <ctx> <n> <file>:<lineno>   the signal is sent now; ctx = try | prop | atexit
+  K KILL - <j> eff:<name>        the second death: SIGKILL now, effect <name> would have been the next
                                  (also appended by the driver when it sends the signal from outside to a
                                  process that is blocked on the run lock)
 """
@@ -59,7 +62,7 @@ def try_ranges(path):
 
 def main():
     script, logpath, signame, n = sys.argv[1], sys.argv[2], sys.argv[3], int(sys.argv[4])
-    n2 = int(sys.argv[5]) if len(sys.argv) > 5 else 0
+    j2 = int(sys.argv[5]) if len(sys.argv) > 5 else -1
     # the dispositions a job process starts with when the scheduler spawns it
     signal.signal(signal.SIGTERM, signal.SIG_DFL)
     signal.signal(signal.SIGINT, signal.default_int_handler)
@@ -87,7 +90,17 @@ def main():
     base = os.path.splitext(os.path.basename(script))[0]
 
     events.open_log(logpath)
-    emit = events.emit
+    log = events.emit
+    fired, posts = [False], [0]
+
+    def emit(text):
+        """one observable effect (E ...) is about to happen (taking the lock: has just happened)"""
+        if fired[0] and j2 >= 0:
+            if posts[0] == j2:
+                log("K KILL - %d eff:%s" % (j2, text.split(" ")[1]))
+                os.kill(os.getpid(), signal.SIGKILL)
+            posts[0] += 1
+        log(text)
 
     # ---- observation of effects (this process only)
     def from_runner():
@@ -214,13 +227,11 @@ def main():
         if event == "line":
             count[0] += 1
             tag = "run" if frame.f_code.co_filename == runpy_file else "task"
-            emit("L %d %s:%d" % (count[0], tag, frame.f_lineno))
+            log("L %d %s:%d" % (count[0], tag, frame.f_lineno))
             if sig is not None and count[0] == n:
-                emit("K %s %s %d %s:%d" % (signame, context(frame), n, tag, frame.f_lineno))
+                log("K %s %s %d %s:%d" % (signame, context(frame), n, tag, frame.f_lineno))
+                fired[0] = True
                 os.kill(os.getpid(), sig)
-            elif n2 and count[0] == n2 and n2 > n > 0:
-                emit("K KILL %s %d %s:%d" % (context(frame), n2, tag, frame.f_lineno))
-                os.kill(os.getpid(), signal.SIGKILL)
         return local
 
     def tracer(frame, event, arg):
